@@ -1759,6 +1759,47 @@ demux_pes_packet		(vbi_dvb_demux *	dx,
 
 /**
  * @internal
+ * @param dx DVB demultiplexer context.
+ *
+ * Called by demux_ts_packet() when all bytes of a PES packet have been
+ * copied into dx->pes_buffer. Validates the PES packet header and
+ * sets up dx->ts_frame_bp and dx->ts_frame_todo for the extraction
+ * of the data units. If the header is invalid the packet and the
+ * data collected so far are discarded.
+ */
+static void
+ts_pes_packet_complete		(vbi_dvb_demux *	dx)
+{
+	const uint8_t *p;
+	unsigned int left;
+
+	p = dx->pes_buffer;
+	left = dx->ts_pes_bp - dx->pes_buffer;
+
+	if (0)
+		log_block (dx, p, left);
+
+	if (!valid_vbi_pes_packet_header (dx, p)) {
+		/* Discard the data collected so far. */
+		dx->new_frame = TRUE;
+
+		dx->ts_frame_todo = 0;
+
+		return;
+	}
+
+	/* Start after data_identifier byte. */
+	dx->ts_frame_bp = dx->pes_buffer + 46;
+
+	/* Data units occupy packet length minus PES header length
+	   minus the data_identifier byte. */
+	dx->ts_frame_todo = left - 46;
+
+	dx->frame.n_data_units_extracted_from_packet = 0;
+}
+
+/**
+ * @internal
  * @param src *src points to DVB PES data, will be incremented by the
  *   number of bytes read from the buffer. This pointer need not align
  *   with PES packet boundaries.
@@ -1854,43 +1895,9 @@ demux_ts_packet			(vbi_dvb_demux *	dx,
 			dx->ts_wrap.consume = 0;
 
 			if (0 == dx->ts_pes_todo) {
-				const uint8_t *p;
-				unsigned int left;
-
 				/* PES packet is complete, let's take
 				   a closer look at the header. */
-
-				p = dx->pes_buffer;
-				left = dx->ts_pes_bp - dx->pes_buffer;
-
-				if (0)
-					log_block (dx, p, left);
-
-				if (!valid_vbi_pes_packet_header (dx, p)) {
-					/* Discard the data collected
-					   so far. */
-					dx->new_frame = TRUE;
-
-					dx->ts_frame_todo = 0;
-
-					if (0) {
-						err = VBI_ERR_STREAM_SYNTAX;
-						goto error_return;
-					} else {
-						continue;
-					}
-				}
-
-				/* Start after data_identifier byte. */
-				dx->ts_frame_bp = dx->pes_buffer + 46;
-
-				/* Data units occupy packet length
-				   minus PES header length minus the
-				   data_identifier byte. */
-				dx->ts_frame_todo = left - 46;
-
-				dx->frame.n_data_units_extracted_from_packet =
-					0;
+				ts_pes_packet_complete (dx);
 			}
 		}
 
@@ -2221,6 +2228,14 @@ demux_ts_packet			(vbi_dvb_demux *	dx,
 			lookahead = MIN (lookahead, TS_HEADER_LOOKAHEAD);
 			dx->ts_wrap.lookahead =
 				TS_HEADER_LOOKAHEAD - lookahead;
+		}
+
+		if (0 == dx->ts_pes_todo) {
+			/* After resynchronization the payload of this
+			   TS packet was already in dx->ts_buffer: the
+			   PES packet is complete without passing
+			   through the copy loop above. */
+			ts_pes_packet_complete (dx);
 		}
 
 		continue;
